@@ -112,3 +112,16 @@ Theorem C10_history_prefix_irrelevant : forall base rs host pre pre' s,
   nth_error (create_history base rs host (pre' ++ [s])) (length pre').
 Proof. exact history_prefix_irrelevant. Qed.
 Print Assumptions C10_history_prefix_irrelevant.
+
+(* client.New hands the base path on as written, with a slash put in front when it has none: nothing of
+   its path part or of its query string is rewritten *)
+Theorem C10_new_base_path_verbatim : forall b,
+  (has_prefix [47] b = true /\ new_base_path b = b) \/
+  (has_prefix [47] b = false /\ new_base_path b = 47 :: b).
+Proof. exact new_base_path_text. Qed.
+Print Assumptions C10_new_base_path_verbatim.
+
+(* ... in particular the text behind the first question mark (the static query) is the caller's own *)
+Theorem C10_new_base_path_keeps_query : forall b, snd (cut 63 (new_base_path b)) = snd (cut 63 b).
+Proof. exact new_base_path_keeps_query. Qed.
+Print Assumptions C10_new_base_path_keeps_query.
